@@ -186,6 +186,30 @@ theorem reset_resumable_partial (H : Hist) {B S : Nat} (n n' : Node) (t : Nat) (
         recover H B S (applyBatch c6 (applyBatch c5 (applyBatch c4 (applyBatch c3 (foldBatches b2 (applyBatch b1 n.db)))))) = .ok { n' with mptReady := false }) :=
   reset_resumable_partial_aux H n n' t bs hreset hbs
 
+/-- **reset_resumable_of_consistent_node**: for a CONSISTENT stopped node (`Inv`, empty write cache — what
+`crash_prefix_consistent` delivers) the header-init hypotheses above are discharged: the reset resumes to the
+uninterrupted node from the database after the first marker batch, after the header reset, after the
+MPT/transfer reset and after the SeekGC; i.e. from every complete stage except the two between block removal
+and header reset. -/
+theorem reset_resumable_of_consistent_node (H : Hist) {B S : Nat} (hB : 1 < B) (n n' : Node) (hn : Inv H B n) (hc : n.cache = [])
+    (t : Nat) (bs : List Batch) (hreset : reset H B S n t = .ok (bs, n')) (hbs : bs ≠ []) :
+    let b1 := ofWrites [(Key.syncPoint, some (Val.ptr t)), marker stJumpStarted]
+    let d1 := applyBatch b1 n.db
+    ∃ (b2 : List Batch) (d2 : Db) (cur x r : Nat) (p0 : Bool),
+      stageBlocks H S t cur d1 = .ok (b2, d2) ∧ d2 = foldBatches b2 d1 ∧
+      let c3 := stageCopy t p0 d2
+      let c4 := stageHeaders B t n.hdrHeight p0
+      let c5 := stageMpt t r
+      let c6 := stageGc p0
+      let d4 := applyBatch c4 (applyBatch c3 d2)
+      let d5 := applyBatch c5 d4
+      let d6 := applyBatch c6 d5
+      bs = b1 :: b2 ++ [c3, c4, c5, c6, stageDone] ∧
+      n'.db = applyBatch stageDone d6 ∧
+      recover H B S d1 = .ok n' ∧ recover H B S d4 = .ok n' ∧
+      recover H B S d5 = .ok { n' with mptReady := false } ∧ recover H B S d6 = .ok { n' with mptReady := false } :=
+  reset_resumable_of_inv H hB n n' hn hc t bs hreset hbs
+
 /-- non-vacuity: the 2-block chain reset to height 1 meets the hypotheses (7 batches). -/
 example : ∃ bs n', reset Hw 2000 200000 (nodeAt 2000 2) 1 = .ok (bs, n') ∧ bs ≠ [] := by
   cases h : reset Hw 2000 200000 (nodeAt 2000 2) 1 with
